@@ -147,10 +147,11 @@ fn plans_c08(tier: Tier) -> Vec<Plan> {
         c3.seg_count = 2;
         c3.pad = 600;
         v.push(Plan { cfg: c3, depth_by_devs: vec![7, 5] });
-        let mut c4 = c.clone();
-        c4.v5 = vec![true, false, true, false, false];
-        v.push(Plan { cfg: c4, depth_by_devs: vec![7, 5] });
     }
+    // MQTT 5 subscriber: its subscription identifiers belong to the session as well
+    let mut c4 = c.clone();
+    c4.v5 = vec![true, false, true, false, false];
+    v.push(Plan { cfg: c4, depth_by_devs: if q { vec![5] } else { vec![7, 5] } });
     v
 }
 
